@@ -45,7 +45,7 @@ type c13Ref struct {
 }
 
 type c13Op struct {
-	Op      string `json:"op"` // init | open | reset | continue | resolve | resume
+	Op      string `json:"op"` // init | open | reset | continue | resolve | resume | teardown
 	Who     int    `json:"who"`
 	Cur     c13Ref `json:"cur"`
 	Call    c13Ref `json:"call"`
@@ -133,7 +133,19 @@ type c13Result struct {
 }
 type c13Prod struct{ Seq int64 }
 type c13Exch struct{ Seq int64 }
-type c13Sess struct{ N int64 }
+type c13Sess struct {
+	N   int64
+	env *c13Env
+}
+
+// Close is what the registry runs when a session is torn down: the harness sees
+// whether a teardown request really closed a session, not only its status.
+func (s *c13Sess) Close() error {
+	if s.env != nil {
+		s.env.closed++
+	}
+	return nil
+}
 
 var c13Schema = arrow.NewSchema([]arrow.Field{{Name: "value", Type: arrow.PrimitiveTypes.Int64}}, nil)
 
@@ -160,6 +172,7 @@ type c13Env struct {
 	callIDs []string // hook level only
 	last    *string
 	sawSess bool // trace of the peek handler
+	closed  int  // number of session states whose Close ran
 	weird   []string
 }
 
@@ -221,7 +234,7 @@ func newC13Env(in c13In) *c13Env {
 		return &vgirpc.StreamResult{OutputSchema: c13Schema, State: &c13Exch{}}, nil
 	})
 	vgirpc.Unary(s, "open_session", func(_ context.Context, cc *vgirpc.CallContext, p c13Params) (c13Result, error) {
-		return c13Result{Value: 1}, cc.OpenSession(&c13Sess{N: p.Value}, 0)
+		return c13Result{Value: 1}, cc.OpenSession(&c13Sess{N: p.Value, env: e}, 0)
 	})
 	vgirpc.Unary(s, "peek", func(_ context.Context, cc *vgirpc.CallContext, p c13Params) (c13Result, error) {
 		_, ok := cc.Session().(*c13Sess)
@@ -309,7 +322,11 @@ func c13IPC(batch arrow.RecordBatch, meta arrow.Metadata) []byte {
 }
 
 func (e *c13Env) do(who int, path string, body []byte, hdr map[string]string) *httptest.ResponseRecorder {
-	req := httptest.NewRequest(http.MethodPost, path, bytes.NewReader(body))
+	return e.doM(http.MethodPost, who, path, body, hdr)
+}
+
+func (e *c13Env) doM(method string, who int, path string, body []byte, hdr map[string]string) *httptest.ResponseRecorder {
+	req := httptest.NewRequest(method, path, bytes.NewReader(body))
 	req.Header.Set("Content-Type", "application/vnd.apache.arrow.stream")
 	if id := e.who(who); !id.Nil { // a nil context cannot come out of an authenticator: no header => Anonymous()
 		req.Header.Set("X-Verif-Id", strconv.Itoa(who))
@@ -373,7 +390,7 @@ func (e *c13Env) step(op c13Op) bool {
 	case "open":
 		var tok string
 		if hook {
-			t, err := e.hk.OpenSession(a)
+			t, err := e.hk.OpenSessionWith(a, &c13Sess{env: e})
 			if err != nil {
 				e.weird = append(e.weird, "open: "+err.Error())
 			}
@@ -466,6 +483,37 @@ func (e *c13Env) step(op c13Op) bool {
 			e.weird = append(e.weird, fmt.Sprintf("resume status %d", w.Code))
 		}
 		return false
+	case "teardown":
+		// DELETE {prefix}/__session__ : status 204 = torn down, 200 = nothing happened
+		tok := e.deref(op.Cur, "sticky")
+		before := e.closed
+		var status int
+		if hook {
+			// the real handler, called directly; it authenticates through the server's AuthenticateFunc
+			r := httptest.NewRequest(http.MethodDelete, "/__session__", nil)
+			if id := e.who(op.Who); !id.Nil {
+				r.Header.Set("X-Verif-Id", strconv.Itoa(op.Who))
+			}
+			if tok != nil {
+				r.Header.Set(sessHdr, *tok)
+			}
+			status, _ = e.hk.Teardown(r)
+		} else {
+			hdr := map[string]string{}
+			if tok != nil {
+				hdr[sessHdr] = *tok
+			}
+			status = e.doM(http.MethodDelete, op.Who, "/__session__", nil, hdr).Code
+		}
+		closedNow := e.closed > before
+		switch {
+		case status == http.StatusNoContent && closedNow:
+			return true
+		case status == http.StatusOK && !closedNow:
+			return false
+		}
+		e.weird = append(e.weird, fmt.Sprintf("teardown status %d but session state closed=%v", status, closedNow))
+		return status == http.StatusNoContent || closedNow
 	}
 	panic("c13: unknown op " + op.Op)
 }
@@ -499,11 +547,14 @@ func c13Run(in c13In) CaseOut {
 			minter = append(minter, who.norm())
 		case "reset":
 			coqOps = append(coqOps, "C13.OReset")
-		case "continue", "resume":
+		case "continue", "resume", "teardown":
 			slot := "cursor"
 			if op.Op == "resume" {
 				slot = "sticky"
 				coqOps = append(coqOps, App("C13.OResume", w, op.Cur.coq()))
+			} else if op.Op == "teardown" {
+				slot = "sticky"
+				coqOps = append(coqOps, App("C13.OTeardown", w, op.Cur.coq()))
 			} else {
 				coqOps = append(coqOps, App("C13.OContinue", w, op.Cur.coq(), op.Call.coq()))
 			}
@@ -591,6 +642,7 @@ func rnone() c13Ref             { return c13Ref{K: "none"} }
 func rlast() c13Ref             { return c13Ref{K: "last"} }
 func cont(w int, c, k c13Ref) c13Op { return c13Op{Op: "continue", Who: w, Cur: c, Call: k} }
 func resume(w int, t c13Ref) c13Op  { return c13Op{Op: "resume", Who: w, Cur: t} }
+func teardown(w int, t c13Ref) c13Op { return c13Op{Op: "teardown", Who: w, Cur: t} }
 
 // the pair template: A (id 0) mints, B (id 1) presents, C (id 2) is a bystander
 // that also uses the server. Static token ids: 0 A.cursor 1 A.call 2 A.sticky
@@ -621,6 +673,17 @@ func c13Pair(a, b, c c13ID, level, stream string) c13In {
 		{Op: "init", Who: B}, {Op: "open", Who: B},
 		cont(A, rt(5), rt(6)), resume(A, rt(7)), // the reverse direction, late in the history
 		cont(B, rt(5), rt(6)), resume(B, rt(7)), resume(B, rre(7)),
+		// the teardown route (DELETE /__session__): same tokens, same identities
+		teardown(B, rt(2)),  // A's session token presented by B
+		resume(A, rt(2)),    //   ... is A's session still there?
+		teardown(A, rt(7)),  // and the reverse direction
+		resume(B, rt(7)),
+		teardown(B, rt(0)), teardown(B, rre(0)), teardown(B, rre(1)), // other kinds on the teardown route
+		teardown(B, rnone()),
+		teardown(A, rre(2)), // the owner tears its own session down (token re-enveloped for the slot: a no-op)
+		resume(A, rt(2)),    //   ... then it is lost for the owner too
+		teardown(A, rt(2)),  //   ... and a second teardown does nothing
+		teardown(B, rt(7)), resume(B, rt(7)),
 	}
 	if level == "hook" {
 		ops = append(ops,
@@ -674,7 +737,7 @@ func c13Random(r *rand.Rand, level, stream string) c13In {
 	ntok = 2
 	for k := 4 + r.Intn(16); k > 0; k-- {
 		w := r.Intn(n)
-		switch x := r.Intn(12); {
+		switch x := r.Intn(13); {
 		case x == 0:
 			ops = append(ops, c13Op{Op: "init", Who: w})
 			ntok += 2
@@ -687,6 +750,8 @@ func c13Random(r *rand.Rand, level, stream string) c13In {
 			ops = append(ops, cont(w, ref(), ref()))
 		case x == 9 && level == "hook":
 			ops = append(ops, c13Op{Op: "resolve", Who: w, CallIdx: r.Intn(3), Call: ref()})
+		case x == 10:
+			ops = append(ops, teardown(w, ref()))
 		default:
 			ops = append(ops, resume(w, ref()))
 		}
@@ -700,6 +765,19 @@ func c13Gen(r *rand.Rand, n int, tier string) []c13In {
 	streams := []string{"producer", "exchange"}
 	np := len(c13Pool)
 	k := 0
+	// boundary first, on the teardown route alone: anonymous-minted token presented by an
+	// authenticated principal and vice versa, another principal, the same principal under
+	// another domain, the key-collision candidate; then the owner itself
+	for _, pr := range [][2]int{{1, 5}, {5, 1}, {0, 3}, {5, 6}, {5, 12}, {1, 4}, {4, 1}, {3, 8}} {
+		for _, l := range levels {
+			out = append(out, c13In{Level: l, Stream: "producer", IDs: []c13ID{c13Pool[pr[0]], c13Pool[pr[1]]}, Ops: []c13Op{
+				{Op: "open", Who: 0},
+				teardown(1, rt(0)), resume(0, rt(0)),
+				teardown(1, rre(0)), resume(0, rt(0)),
+				teardown(0, rt(0)), resume(0, rt(0)), teardown(0, rt(0)),
+			}})
+		}
+	}
 	// every ordered pair of the pool (boundary identities come first in pool order)
 	for a := 0; a < np; a++ {
 		for b := 0; b < np; b++ {
@@ -723,6 +801,6 @@ func c13Gen(r *rand.Rand, n int, tier string) []c13In {
 }
 
 func init() {
-	Register("C13", "every ordered pair of an 18-identity pool (anonymous in three spellings, empty fields, the cache-key collision candidate, shared prefixes, NUL/high bytes in principals, two NUL-domain identities outside the quantifier) runs a 32-39 step history on a fresh real server (mint by A, present by B: own/foreign/other-kind tokens, verbatim and re-enveloped, cache warm/cold/warmed by a bystander), alternately through the verif hooks and through the HTTP routes; then random histories; every case is non-trivial (it contains presentations); distinct = distinct input JSON",
+	Register("C13", "every ordered pair of an 18-identity pool (anonymous in three spellings, empty fields, the cache-key collision candidate, shared prefixes, NUL/high bytes in principals, two NUL-domain identities outside the quantifier) runs a 45-53 step history on a fresh real server (mint by A, present by B: own/foreign/other-kind tokens, verbatim and re-enveloped, cache warm/cold/warmed by a bystander; session tokens on the resume route AND on the DELETE /__session__ teardown route, observing status and whether the state's Close ran, then whether the owner still resumes), alternately through the verif hooks and through the HTTP routes; then random histories; every case is non-trivial (it contains presentations); distinct = distinct input JSON",
 		c13Gen, c13Run)
 }
